@@ -145,6 +145,166 @@ pub fn pool_labels(rep: &sched::Report) -> String {
     out.join(",")
 }
 
+/// The same run as ONE execution of `Lts.Whole` (pool x queue x connections): accepts, arrivals of
+/// complete requests, closes, pushes by the worker that serves the connection, the pool's and
+/// the queue's own steps.  A request written (or a close) before the server has accepted the
+/// connection sits in the socket: it is reported right after the accept.
+pub fn whole_labels(rep: &sched::Report) -> String {
+    use std::collections::HashMap;
+    let mut widx: HashMap<usize, usize> = HashMap::new();
+    let mut cons_of: HashMap<usize, usize> = HashMap::new();
+    let mut prod_of: HashMap<usize, usize> = HashMap::new();
+    let mut accept: Option<usize> = None;
+    let mut n = 0;
+    for (tid, (name, _)) in rep.threads.iter().enumerate() {
+        if name.starts_with("task_pool.rs") {
+            widx.insert(tid, n);
+            n += 1;
+        } else if name.starts_with("lib.rs") && accept.is_none() {
+            accept = Some(tid);
+        } else if let Some(r) = name.strip_prefix("cons") {
+            if let Ok(i) = r.parse::<usize>() {
+                cons_of.insert(tid, i);
+            }
+        } else if let Some(r) = name.strip_prefix("prod") {
+            if let Ok(i) = r.parse::<usize>() {
+                prod_of.insert(tid, i);
+            }
+        }
+    }
+    let mut out: Vec<String> = vec![];
+    let mut last_t = 0u64;
+    let mut conn_of_prod: HashMap<usize, usize> = HashMap::new();
+    let mut next_conn = 0usize;
+    let mut accepted = 0usize;
+    let mut held: Vec<(usize, String)> = vec![]; // (connection, label) waiting for the accept
+    let mut dispatching = false;
+    let mut unblocking: HashMap<usize, bool> = HashMap::new();
+    let mut in_wait: HashMap<usize, bool> = HashMap::new();
+    let mut emit = |out: &mut Vec<String>, t: u64, l: String, last_t: &mut u64| {
+        if t > *last_t {
+            out.push(format!("+{}", t - *last_t));
+            *last_t = t;
+        }
+        out.push(l);
+    };
+    for e in &rep.events {
+        if e.what == "drain" {
+            break;
+        }
+        let w: Vec<&str> = e.what.split(' ').collect();
+        let pool_site = |i: usize| w.get(i).map_or(false, |s| s.starts_with("task_pool.rs"));
+        let queue_site = |i: usize| w.get(i).map_or(false, |s| s.starts_with("messages_queue.rs"));
+        let is_accept = Some(e.tid) == accept;
+        let woke_of = |x: Option<&&str>, m: &HashMap<usize, usize>| -> String {
+            match x {
+                Some(x) if x.starts_with('t') => {
+                    let tid: usize = x[1..].parse().unwrap_or(usize::MAX);
+                    m.get(&tid).map(|c| c.to_string()).unwrap_or_else(|| "?".into())
+                }
+                _ => "-".to_string(),
+            }
+        };
+        match w[0] {
+            "connected" => {
+                if let Some(&p) = prod_of.get(&e.tid) {
+                    conn_of_prod.insert(p, next_conn);
+                    next_conn += 1;
+                }
+            }
+            "send" | "closed" => {
+                if let Some(k) = prod_of.get(&e.tid).and_then(|p| conn_of_prod.get(p)).cloned() {
+                    let l = if w[0] == "send" { format!("R{}:{}", k, w[1]) } else { format!("C{}", k) };
+                    if k < accepted {
+                        emit(&mut out, e.t, l, &mut last_t);
+                    } else {
+                        held.push((k, l));
+                    }
+                }
+            }
+            "unblock" => {
+                unblocking.insert(e.tid, true);
+            }
+            "lock" if pool_site(1) && is_accept => dispatching = true,
+            "spawn" | "notify_one" if is_accept && dispatching && (pool_site(1) || w.get(2).map_or(false, |s| s.starts_with("task_pool.rs"))) => {
+                dispatching = false;
+                let l = if w[0] == "spawn" {
+                    "A:n".to_string()
+                } else {
+                    if let Some(x) = w.get(2) {
+                        if x.starts_with('t') {
+                            if let Ok(tid) = x[1..].parse::<usize>() {
+                                in_wait.insert(tid, false);
+                            }
+                        }
+                    }
+                    format!("A:q{}", woke_of(w.get(2), &widx))
+                };
+                emit(&mut out, e.t, l, &mut last_t);
+                let k = accepted;
+                accepted += 1;
+                let (now, later): (Vec<_>, Vec<_>) = held.drain(..).partition(|(c, _)| *c == k);
+                held = later;
+                for (_, l) in now {
+                    emit(&mut out, e.t, l, &mut last_t);
+                }
+            }
+            "begin" => {
+                if let Some(&i) = widx.get(&e.tid) {
+                    emit(&mut out, e.t, format!("pB{}", i), &mut last_t);
+                }
+            }
+            "lock" if pool_site(1) => {
+                if let Some(&i) = widx.get(&e.tid) {
+                    in_wait.insert(e.tid, false);
+                    emit(&mut out, e.t, format!("pL{}", i), &mut last_t);
+                }
+            }
+            "lock" if queue_site(1) => {
+                if let Some(&c) = cons_of.get(&e.tid) {
+                    in_wait.insert(e.tid, false);
+                    emit(&mut out, e.t, format!("qL{}", c), &mut last_t);
+                }
+            }
+            "call" => {
+                if let Some(&c) = cons_of.get(&e.tid) {
+                    emit(&mut out, e.t, format!("qc{}:{}", c, w[1]), &mut last_t);
+                }
+            }
+            "wait" if pool_site(1) || queue_site(1) => {
+                in_wait.insert(e.tid, true);
+            }
+            "notify_one" if queue_site(1) => {
+                if let Some(x) = w.get(2) {
+                    if x.starts_with('t') {
+                        if let Ok(tid) = x[1..].parse::<usize>() {
+                            in_wait.insert(tid, false);
+                        }
+                    }
+                }
+                let woke = woke_of(w.get(2), &cons_of);
+                if unblocking.remove(&e.tid).is_some() {
+                    emit(&mut out, e.t, format!("qU:{}", woke), &mut last_t);
+                } else if let Some(&i) = widx.get(&e.tid) {
+                    emit(&mut out, e.t, format!("P{}:{}", i, woke), &mut last_t);
+                }
+            }
+            "timer" => {
+                if in_wait.get(&e.tid).cloned().unwrap_or(false) {
+                    in_wait.insert(e.tid, false);
+                    if let Some(&i) = widx.get(&e.tid) {
+                        emit(&mut out, e.t, format!("pT{}", i), &mut last_t);
+                    } else if let Some(&c) = cons_of.get(&e.tid) {
+                        emit(&mut out, e.t, format!("qT{}", c), &mut last_t);
+                    }
+                }
+            }
+            _ => {}
+        }
+    }
+    out.join(",")
+}
+
 pub fn run(id: usize, rng: &mut Rng) -> String {
     run_kind(id, rng, false)
 }
@@ -226,6 +386,7 @@ fn run_kind(id: usize, rng: &mut Rng, pool_view: bool) -> String {
                         POp::Push(v) => {
                             if conn.is_none() {
                                 conn = verif_rt::net::TcpStream::connect(addr).ok();
+                                sched::log(&format!("connected {}", pi));
                             }
                             if let Some(c) = conn.as_ref() {
                                 sched::log(&format!("send {}", v));
@@ -238,6 +399,9 @@ fn run_kind(id: usize, rng: &mut Rng, pool_view: bool) -> String {
                             server.unblock()
                         }
                         POp::Close => {
+                            if conn.is_some() {
+                                sched::log(&format!("closed {}", pi));
+                            }
                             conn = None;
                         }
                     }
@@ -301,7 +465,7 @@ fn run_kind(id: usize, rng: &mut Rng, pool_view: bool) -> String {
     }
     let labels = ctl_queue::map_labels(&rep);
     format!(
-        "queue id={} anon=1 burst={} seed={} ptimer={} prods={} cons={} | labels={} hist={} left={} blocked={} quiet={} aborted={} clock={}",
+        "queue id={} anon=1 burst={} seed={} ptimer={} prods={} cons={} | labels={} hist={} left={} blocked={} quiet={} aborted={} clock={} live_end={} whole={}",
         id,
         if burst { 1 } else { 0 },
         cfg.seed,
@@ -314,7 +478,9 @@ fn run_kind(id: usize, rng: &mut Rng, pool_view: bool) -> String {
         blocked.iter().map(|b| b.to_string()).collect::<Vec<_>>().join(","),
         if quiet { 1 } else { 0 },
         if rep.aborted { 1 } else { 0 },
-        rep.clock
+        rep.clock,
+        live_end,
+        whole_labels(&rep)
     )
 }
 
